@@ -76,7 +76,13 @@ Definition held_by (nl : nat) (w : world) (t : tid) : list lock :=
   filter (fun l => writer_is (w_raw w l) t || memb t (readers (w_raw w l))) (seq 0 nl).
 
 (* run on from a scheduling point until the next one is reached (or the thread's program ends) *)
-Fixpoint drain (fuel : nat) (e : env) (t : tid) (th : thr) (w : world) (evs : list bev) : thr * world * list bev :=
+(* [ra] ("release-atomic"): a release that directly follows another release of the same thread (no other raw
+   operation or data access of that thread in between) is not a scheduling point: a run of releases is then one
+   step, and the order of the releases inside it is invisible to the other threads.  [lr]: the last scheduling-point
+   operation this thread performed was a release.  With ra = false this is the plain semantics. *)
+Definition is_rel_op (o : op) : bool := match o with ORaw (OUnlock | OUnlockSh) _ => true | _ => false end.
+
+Fixpoint drain_g (ra lr : bool) (fuel : nat) (e : env) (t : tid) (th : thr) (w : world) (evs : list bev) : thr * world * list bev :=
   match fuel with
   | 0 => (th, w, evs)
   | S f =>
@@ -87,15 +93,15 @@ Fixpoint drain (fuel : nat) (e : env) (t : tid) (th : thr) (w : world) (evs : li
           | [] => (mkthr None [] (th_loc th) true true, w, evs)
           | o :: r =>
               match api_prog e (th_loc th) o with
-              | None => drain f e t (mkthr None r (th_loc th) true false) w
+              | None => drain_g ra lr f e t (mkthr None r (th_loc th) true false) w
                               (BRet t RSkipped (negb (w_keyf w t)) :: evs)
-              | Some p => drain f e t (mkthr (Some (o, p)) r (th_loc th) true false) w evs
+              | Some p => drain_g ra lr f e t (mkthr (Some (o, p)) r (th_loc th) true false) w evs
               end
           end
       | Some (o, p) =>
           let finish (out : outcome) :=
             let (lc', rc) := api_fin e (th_loc th) o out in
-            drain f e t (mkthr None (th_rest th) lc' true (stops rc)) w
+            drain_g ra lr f e t (mkthr None (th_rest th) lc' true (stops rc)) w
                   (BRet t rc (negb (w_keyf w t)) :: evs) in
           match nextop p with
           | NRet v => finish (ODone v)
@@ -103,15 +109,24 @@ Fixpoint drain (fuel : nat) (e : env) (t : tid) (th : thr) (w : world) (evs : li
           | NAbort => finish OAbort
           | NFuel => finish OFuel
           | NOp op =>
-              if is_sched op then (th, w, evs)
+              if is_sched op then
+                if ra && lr && is_rel_op op then
+                  match step nopw t p (clear_trace w) with
+                  | SStep p' w' => drain_g ra lr f e t (mkthr (Some (o, p')) (th_rest th) (th_loc th) true false) w'
+                                           (wrap (w_trace w') ++ evs)
+                  | _ => (th, w, evs)
+                  end
+                else (th, w, evs)
               else match step nopw t p (clear_trace w) with
-                   | SStep p' w' => drain f e t (mkthr (Some (o, p')) (th_rest th) (th_loc th) true false) w'
+                   | SStep p' w' => drain_g ra lr f e t (mkthr (Some (o, p')) (th_rest th) (th_loc th) true false) w'
                                           (wrap (w_trace w') ++ evs)
                    | _ => (th, w, evs)       (* unreachable: nextop said an operation comes next *)
                    end
           end
       end
   end.
+
+Definition drain := drain_g false false.
 
 Definition DRAIN_FUEL := 4000.
 
@@ -137,30 +152,33 @@ Fixpoint note_waits (wp : bool) (nl : nat) (s : bstate) (ts : list tid) : bstate
   end.
 
 (* one turn of thread t (which must be enabled) *)
-Definition turn (wp : bool) (e : env) (nl : nat) (s : bstate) (t : tid) : bstate :=
+Definition turn_g (ra : bool) (wp : bool) (e : env) (nl : nat) (s : bstate) (t : tid) : bstate :=
   let th := get_thr (b_thr s) t in
   if negb (th_started th) then
-    let '(th', w', evs') := drain DRAIN_FUEL e t (mkthr (th_cur th) (th_rest th) (th_loc th) true false) (b_w s) (b_evs s) in
+    let '(th', w', evs') := drain_g ra false DRAIN_FUEL e t (mkthr (th_cur th) (th_rest th) (th_loc th) true false) (b_w s) (b_evs s) in
     mkb w' (set_nth (b_thr s) t th') evs' (set_nth (b_noted s) t false)
   else
     match th_cur th with
     | Some (o, p) =>
+        let lr := match parked th with Some op => is_rel_op op | None => false end in
         match step (pendw wp (b_thr s) t) t p (clear_trace (b_w s)) with
         | SStep p' w1 =>
-            let '(th', w', evs') := drain DRAIN_FUEL e t (mkthr (Some (o, p')) (th_rest th) (th_loc th) true false) w1
+            let '(th', w', evs') := drain_g ra lr DRAIN_FUEL e t (mkthr (Some (o, p')) (th_rest th) (th_loc th) true false) w1
                                           (wrap (w_trace w1) ++ b_evs s) in
             mkb w' (set_nth (b_thr s) t th') evs' (set_nth (b_noted s) t false)
         | _ => s
         end
     | None => s
     end.
+Definition turn := turn_g false.
 
-Fixpoint run_sched (wp : bool) (e : env) (nl : nat) (s : bstate) (sched : list tid) : bstate * bool :=
+Fixpoint run_sched_g (ra : bool) (wp : bool) (e : env) (nl : nat) (s : bstate) (sched : list tid) : bstate * bool :=
   let s := note_waits wp nl s (seq 0 (length (b_thr s))) in
   match sched with
   | [] => (s, true)
-  | t :: r => if enabled wp s t then run_sched wp e nl (turn wp e nl s t) r else (s, false)
+  | t :: r => if enabled wp s t then run_sched_g ra wp e nl (turn_g ra wp e nl s t) r else (s, false)
   end.
+Definition run_sched := run_sched_g false.
 
 Inductive bstatus := BDone | BDeadlock | BSelfWait | BUnfinished | BBadSchedule.
 
@@ -187,11 +205,12 @@ Definition binit (b : bscen) : bstate :=
   mkb (sc_world (bs_sc b)) (map (fun ops => mkthr None ops tl0 false false) (bs_progs b)) []
       (map (fun _ => false) (bs_progs b)).
 
-Definition model_bobs (b : bscen) (sched : list tid) : bobs :=
+Definition model_bobs_g (ra : bool) (b : bscen) (sched : list tid) : bobs :=
   let sc := bs_sc b in
-  let '(s, ok) := run_sched (bs_wp b) (sc_env sc) (sc_nlocks sc) (binit b) sched in
+  let '(s, ok) := run_sched_g ra (bs_wp b) (sc_env sc) (sc_nlocks sc) (binit b) sched in
   mkbo (status_of (bs_wp b) s ok) (rev (b_evs s)) (snapshot_holds (sc_nlocks sc) (b_w s))
        (snapshot_psn (sc_npids sc) (b_w s)).
+Definition model_bobs := model_bobs_g false.
 
 (* ---------------------------------------------------------------- the rank discipline, as a decidable test *)
 Definition waits_b (wp : bool) (s : bstate) (t : tid) : option lock :=
@@ -256,17 +275,19 @@ Definition rk_of (sc : scen) (l : lock) : nat :=
 Definition bound_of (sc : scen) : nat := S (list_max (sc_laddr sc ++ sc_uaddr sc)) * 16 + 16.
 
 (* the test holds in every state the schedule goes through *)
-Fixpoint stable_along (nl : nat) (wp : bool) (rk : lock -> nat) (N : nat) (e : env) (s : bstate) (sched : list tid) : bool :=
+Fixpoint stable_along_g (ra : bool) (nl : nat) (wp : bool) (rk : lock -> nat) (N : nat) (e : env) (s : bstate) (sched : list tid) : bool :=
   let s := note_waits wp nl s (seq 0 (length (b_thr s))) in
   stable_b nl wp rk N s &&
   match sched with
   | [] => true
-  | t :: r => if enabled wp s t then stable_along nl wp rk N e (turn wp e nl s t) r else true
+  | t :: r => if enabled wp s t then stable_along_g ra nl wp rk N e (turn_g ra wp e nl s t) r else true
   end.
+Definition stable_along := stable_along_g false.
 
-Definition model_stable (b : bscen) (sched : list tid) : bool :=
+Definition model_stable_g (ra : bool) (b : bscen) (sched : list tid) : bool :=
   let sc := bs_sc b in
-  stable_along (sc_nlocks sc) (bs_wp b) (rk_of sc) (bound_of sc) (sc_env sc) (binit b) sched.
+  stable_along_g ra (sc_nlocks sc) (bs_wp b) (rk_of sc) (bound_of sc) (sc_env sc) (binit b) sched.
+Definition model_stable := model_stable_g false.
 
 (* the schedule the harness actually follows: entries naming a thread that cannot move are skipped; when the
    list is exhausted the lowest enabled thread runs, until nobody can move *)
